@@ -901,6 +901,13 @@ impl Model {
         self.note_scan(Some(ZERO), None, true, None);
     }
 
+    /// An operation on this frame was in flight when the process died.
+    pub fn set_maybe(&mut self, id: u128) {
+        if let Some(f) = self.frames.get_mut(&id) {
+            f.presence = Presence::Maybe;
+        }
+    }
+
     /// A `Maybe` frame was observed at a settled point: fix its state.
     pub fn collapse(&mut self, id: u128, present: bool) {
         let why = match self.frames.get(&id) {
